@@ -368,6 +368,173 @@ let rate_op toks =
           | _ -> comp_poisoned := true; print_string "PANIC\n")
      | _ -> print_string "skipped\n")
 
+(* ---------- endpoint mode ---------- *)
+type peer = { mutable mailbox : (int * n list) list; mutable pclient : int option }
+type target = TSrv | TPeer of int
+type cli = { mutable c : client; mutable cinbox : n list list; ctarget : target; mutable cpoisoned : bool }
+let ep_server : server option ref = ref None
+let ep_srv_poisoned = ref false
+let ep_srv_inbox : (n * n list) list ref = ref []
+let ep_peers : peer option array = Array.make 8 None
+let ep_clients : cli option array = Array.make 4 None
+let ep_nonces : n list ref = ref []
+
+let ep_reset () =
+  ep_server := None; ep_srv_poisoned := false; ep_srv_inbox := [];
+  Array.fill ep_peers 0 8 None; Array.fill ep_clients 0 4 None; ep_nonces := []; nonce_seed := N0
+
+let kind_char = function
+  | b :: _ -> (match int_of_n b with 0 -> 's' | 1 -> 'S' | 2 -> 'a' | 3 -> 'e' | 4 -> 'd' | 5 -> 'D' | 10 -> 'x' | 11 -> 'y' | 12 -> 'k' | _ -> '?')
+  | [] -> '?'
+
+let ep_config = function
+  | [a; b; c; d; e; f; g] ->
+      { ec_max_send_rate = n_of_string a; ec_max_receive_rate = n_of_string b; ec_max_packet_size = n_of_string c;
+        ec_max_receive_alloc = n_of_string d; ec_keepalive = (e = "1"); ec_keepalive_interval = n_of_string f;
+        ec_active_timeout = n_of_string g }
+  | _ -> failwith "bad endpoint config"
+
+let err_name k = match int_of_n k with 0 -> "timeout" | 1 -> "version" | 2 -> "config" | _ -> "full"
+let print_events evs =
+  List.iter (function
+    | EvConnect a -> Printf.printf "ev connect %s\n" (sn a)
+    | EvDisconnect a -> Printf.printf "ev disconnect %s\n" (sn a)
+    | EvReceive (a, d) -> Printf.printf "ev receive %s %d %s\n" (sn a) (List.length d) (sn (crc_compute d))
+    | EvError (a, k) -> Printf.printf "ev error %s %s\n" (sn a) (err_name k)) evs
+
+let sig_name = function None -> "-" | Some true -> "N" | Some false -> "F"
+
+let server_dump (s : server) =
+  let entries = List.sort compare (List.map (fun (a, id) -> (int_of_n a, id)) s.sv_clients) in
+  let parts = List.map (fun (a, id) ->
+    let o = List.nth s.sv_objs (int_of_n id) in
+    let st = match o.so_state with
+      | SvPending (ln, rn, _, _, _) -> "P" ^ sn ln ^ ":" ^ sn rn
+      | SvActive (h, _, timeout, disc) -> "A" ^ sn timeout ^ ":" ^ sig_name disc ^ ":[" ^ hc_dump h ^ "]"
+      | SvClosing -> "C" | SvClosed -> "D" | SvFin -> "F" in
+    Printf.sprintf "%d=%s" a st) entries in
+  String.trim (Printf.sprintf "clients=%d active=%d events=%d %s" (List.length s.sv_clients) (List.length s.sv_active)
+                 (List.length s.sv_events) (String.concat " " parts))
+
+let client_dump (c : client) =
+  match c.cl_state_ with
+  | ClPending (ln, _, rt, rc, sends) -> Printf.sprintf "P%s:%s:%s:%d" (sn ln) (sn rt) (sn rc) (List.length sends)
+  | ClActive (ln, _, h, _, timeout, disc) -> Printf.sprintf "A%s:%s:%s:[%s]" (sn ln) (sn timeout) (sig_name disc) (hc_dump h)
+  | ClClosing (_, rt, rc) -> Printf.sprintf "C%s:%s" (sn rt) (sn rc)
+  | ClClosed t -> "D" ^ sn t
+  | ClFin -> "F"
+
+let dispatch_from_server (addr, bytes) =
+  let a = int_of_n addr in
+  if a >= 100 then (match ep_clients.(a - 100) with Some cl -> cl.cinbox <- cl.cinbox @ [bytes] | None -> ())
+  else (match ep_peers.(a) with Some p -> p.mailbox <- p.mailbox @ [(-1, bytes)] | None -> ())
+
+let dispatch_from_client j cl bytes =
+  match cl.ctarget with
+  | TSrv -> ep_srv_inbox := !ep_srv_inbox @ [(n_of_int (100 + j), bytes)]
+  | TPeer k -> (match ep_peers.(k) with Some p -> p.mailbox <- p.mailbox @ [(100 + j, bytes)] | None -> ())
+
+let ep_op toks =
+  let n = n_of_string in
+  match toks with
+  | ["seed"; v] -> nonce_seed := n v
+  | ["nonce"; v] -> ep_nonces := !ep_nonces @ [n v]
+  | "srvnew" :: mt :: ma :: er :: rest ->
+      let cfgl = take 7 rest in
+      let vnow = List.nth rest 7 in
+      let s = server_new { svc_max_total = n mt; svc_max_active = n ma; svc_enable_errors = (er = "1"); svc_ec = ep_config cfgl } (n vnow) !nonce_seed in
+      ep_server := Some s; Printf.printf "st %s\n" (server_dump s)
+  | ["peer"; k] -> ep_peers.(int_of_string k) <- Some { mailbox = []; pclient = None }; Printf.printf "new peer %s\n" k
+  | ("psend" | "psendraw" | "psendc") :: k :: rest ->
+      let bytes = if List.hd toks = "psendraw" then bytes_of_hex (List.hd rest) else write_frame (parse_frame rest) in
+      let k = int_of_string k in
+      if List.hd toks = "psendc" then
+        (match ep_peers.(k) with
+         | Some { pclient = Some j; _ } -> (match ep_clients.(j) with Some cl -> cl.cinbox <- cl.cinbox @ [bytes] | None -> ())
+         | _ -> ())
+      else if !ep_server <> None then ep_srv_inbox := !ep_srv_inbox @ [(n_of_int k, bytes)];
+      Printf.printf "new sent %d\n" (List.length bytes)
+  | ("pfwd" | "precv") :: k :: rest ->
+      let k = int_of_string k in
+      let p = match ep_peers.(k) with Some p -> p | None -> failwith "no such peer" in
+      let got = Array.of_list p.mailbox in
+      p.mailbox <- [];
+      Array.iter (fun (src, b) ->
+        Printf.printf "dgram %s %d %s %c\n" (if src < 0 then "S" else string_of_int src) (List.length b) (sn (crc_compute b)) (kind_char b)) got;
+      if List.hd toks = "pfwd" then begin
+        let (drop, dup, seed) = match rest with [a; b; c] -> (int_of_string a, int_of_string b, int_of_string c) | _ -> failwith "bad pfwd" in
+        let plan = relay_plan (Array.length got) drop dup 0 seed in
+        let kinds = Buffer.create 8 in
+        List.iter (fun i ->
+          let (src, b) = got.(i) in
+          if src < 0 then (match p.pclient with Some j -> (match ep_clients.(j) with Some cl -> cl.cinbox <- cl.cinbox @ [b] | None -> ()) | None -> ())
+          else if !ep_server <> None then ep_srv_inbox := !ep_srv_inbox @ [(n_of_int k, b)];
+          Buffer.add_char kinds (kind_char b)) plan;
+        Printf.printf "new fwd %s\n" (Buffer.contents kinds)
+      end else Printf.printf "new recv %d\n" (Array.length got)
+  | ("srvstep" | "srvflush" | "srvsend" | "srvdisc" | "srvdrop") :: rest ->
+      (match !ep_server with
+       | Some s when not !ep_srv_poisoned ->
+           let fail () = ep_srv_poisoned := true; print_string "PANIC\n" in
+           (match List.hd toks, rest with
+            | "srvstep", [vnow] ->
+                let inbox = !ep_srv_inbox in
+                ep_srv_inbox := [];
+                (match server_step s (n vnow) inbox !ep_nonces with
+                 | Ok (((s', evs), sends), nonces') ->
+                     ep_server := Some s'; ep_nonces := nonces';
+                     List.iter dispatch_from_server sends; print_events evs; Printf.printf "st %s\n" (server_dump s')
+                 | _ -> fail ())
+            | "srvflush", _ ->
+                (match server_flush s with
+                 | Ok (s', sends) -> ep_server := Some s'; List.iter dispatch_from_server sends; Printf.printf "st %s\n" (server_dump s')
+                 | _ -> fail ())
+            | "srvsend", [a; chan; mode; len; seed] ->
+                let s' = server_client_send s (n a) (payload (int_of_string len) (int_of_string seed)) (n chan) (mode_of mode) in
+                ep_server := Some s'; Printf.printf "st %s\n" (server_dump s')
+            | "srvdisc", [a; now] ->
+                let s' = server_client_disconnect s (n a) (now = "1") in
+                ep_server := Some s'; Printf.printf "st %s\n" (server_dump s')
+            | "srvdrop", [a] ->
+                let s' = server_drop s (n a) in
+                ep_server := Some s'; Printf.printf "st %s\n" (server_dump s')
+            | _ -> failwith "bad server op")
+       | _ -> print_string "skipped\n")
+  | "clinew" :: j :: target :: rest ->
+      let j = int_of_string j in
+      let cfgl = take 7 rest in
+      let vnow = List.nth rest 7 in
+      let nonce = match !ep_nonces with x :: r -> ep_nonces := r; x | [] -> N0 in
+      let (c, syn) = client_connect (ep_config cfgl) nonce (n vnow) !nonce_seed in
+      let tgt = if target = "srv" then TSrv else TPeer (int_of_string target) in
+      let cl = { c = c; cinbox = []; ctarget = tgt; cpoisoned = false } in
+      ep_clients.(j) <- Some cl;
+      (match tgt with TPeer k -> (match ep_peers.(k) with Some p -> p.pclient <- Some j | None -> ()) | TSrv -> ());
+      dispatch_from_client j cl syn;
+      Printf.printf "st %s\n" (client_dump c)
+  | ("clistep" | "cliflush" | "clisend" | "clidisc") :: j :: rest ->
+      let j = int_of_string j in
+      (match ep_clients.(j) with
+       | Some cl when not cl.cpoisoned ->
+           let finish c' = cl.c <- c'; Printf.printf "st sbs=%s %s\n" (sn (client_send_buffer_size c')) (client_dump c') in
+           (match List.hd toks, rest with
+            | "clistep", [vnow] ->
+                let inbox = cl.cinbox in
+                cl.cinbox <- [];
+                (match client_step cl.c (n vnow) inbox with
+                 | Ok ((c', evs), sends) -> List.iter (dispatch_from_client j cl) sends; print_events evs; finish c'
+                 | _ -> cl.cpoisoned <- true; print_string "PANIC\n")
+            | "cliflush", _ ->
+                (match client_flush cl.c with
+                 | Ok (c', sends) -> List.iter (dispatch_from_client j cl) sends; finish c'
+                 | _ -> cl.cpoisoned <- true; print_string "PANIC\n")
+            | "clisend", [chan; mode; len; seed] ->
+                finish (client_send cl.c (payload (int_of_string len) (int_of_string seed)) (n chan) (mode_of mode))
+            | "clidisc", [now] -> finish (client_disconnect cl.c (now = "1"))
+            | _ -> failwith "bad client op")
+       | _ -> print_string "skipped\n")
+  | _ -> failwith ("bad ep op: " ^ String.concat " " toks)
+
 let split_ws s = List.filter (fun t -> t <> "") (String.split_on_char ' ' s)
 
 let () =
@@ -379,12 +546,13 @@ let () =
       let toks = split_ws line in
       match toks with
       | [] -> ()
-      | "case" :: _ -> print_string line; print_char '\n'; hc_reset (); comp := None
+      | "case" :: _ -> print_string line; print_char '\n'; hc_reset (); comp := None; ep_reset ()
       | _ ->
         (match mode with
          | "codec" -> codec_op toks
          | "hc" -> hc_op toks; flush stdout
          | "rate" -> rate_op toks
+         | "ep" -> ep_op toks; flush stdout
          | _ -> failwith "unknown mode")
     done
   with End_of_file -> ());
